@@ -70,6 +70,10 @@ func alphabet() []hostile {
 		{name: "metaObject(wrong-object)", typ: net.Call, svc: 1, obj: 1, act: 2, pay: u32(5)},
 		{name: "terminate(wrong-object)", typ: net.Call, svc: 1, obj: 1, act: 3, pay: u32(5)},
 		{name: "unknown-action", typ: net.Call, svc: 1, obj: 1, act: 999},
+		{name: "enableStats(true)", typ: net.Call, svc: 1, obj: 1, act: 81, pay: []byte{1}},
+		{name: "enableTrace(true)", typ: net.Call, svc: 1, obj: 1, act: 85, pay: []byte{1}},
+		{name: "stats()", typ: net.Call, svc: 1, obj: 1, act: 82},
+		{name: "clearStats()", typ: net.Call, svc: 1, obj: 1, act: 83},
 		{name: "echo(truncated)", typ: net.Call, svc: 1, obj: 1, act: 100, pay: []byte{1, 2}},
 		{name: "echo(garbage)", typ: net.Call, svc: 1, obj: 1, act: 100, pay: bytes.Repeat([]byte{0xfe}, 64)},
 		{name: "setProperty(malformed)", typ: net.Call, svc: 1, obj: 1, act: 6, pay: []byte{9, 0, 0, 0, 'x'}},
@@ -185,7 +189,18 @@ func body(n int, bounded bool) func() {
 		// names the multiset of hostile frames (vcheck keeps only the minimal
 		// failing multisets)
 		set := "{" + multiset(seq) + "}"
+		// a library thread blocked writing to the hostile peer's connection:
+		// the slow-consumer stall, whatever frames filled the buffer
+		stalled := ""
+		for _, b := range vrt.Snapshot() {
+			if b.Kind == vrt.KIO && b.Label == "write "+h.Raw.Peer().Name() {
+				stalled = b.Thread
+			}
+		}
+		served := pw.Done() && gw.Done() && okRoot && okChild && okGood
 		switch lws := vrt.LockWaiters(); {
+		case stalled != "" && !served:
+			vrt.Failf("=slow-consumer-stall", "thread %s is blocked writing to the hostile peer, which never reads (finite send buffer), after [%s]; fresh client served: %v, established client served: %v", stalled, names, pw.Done() && okRoot && okChild, gw.Done() && okGood)
 		case len(lws) > 0:
 			vrt.Failf("=deadlock/"+set, "thread %s blocked on %s at quiescence after hostile frames [%s] disconnect=%v (%s buffers); fresh client served: %v", lws[0].Thread, lws[0].Label, names, disconnect, model, pw.Done())
 		case !pw.Done():
@@ -230,7 +245,7 @@ func multiset(seq []hostile) string {
 
 func init() {
 	reg.Register(&reg.Scenario{Property: "C12", Name: "hostile-2-unbounded", Body: body(2, false), Quick: 0, Thorough: 1,
-		Doc: "authenticated hostile peer: all sequences of <=2 frames of a 29-frame alphabet x abrupt disconnect, unbounded buffers; then a fresh and an established client call every object"})
+		Doc: "authenticated hostile peer: all sequences of <=2 frames of a 33-frame alphabet x abrupt disconnect, unbounded buffers; then a fresh and an established client call every object"})
 	reg.Register(&reg.Scenario{Property: "C12", Name: "hostile-2-bounded", Body: body(2, true), Quick: 0, Thorough: 1,
 		Doc: "same with a finite send buffer towards a hostile peer that never reads"})
 	reg.Register(&reg.Scenario{Property: "C12", Name: "hostile-3-unbounded", Body: body(3, false), Quick: -1, Thorough: 0,
